@@ -271,8 +271,27 @@ def run_history(total, ops, driver='awgs', len_dtype='u8'):
         else:
             cp, dev = make_pair(T, total)
             pm = cp
+        # round 5: the property's observation point inside a history — the decision the driver obtains from
+        # _find_place_for_segments_in_memory, together with the driver's OWN arrays at the moment of the call (not the
+        # arguments it chose to pass on).  The method itself is /repo's; the wrapper only records.
+        decisions = []
+        orig_place = cp._find_place_for_segments_in_memory
+
+        def recording_place(segments, segment_lengths):
+            rec = {'hashes': [int(x) for x in cp._segment_hashes.tolist()],
+                   'refs': [int(x) for x in cp._segment_references.astype('int64').tolist()],
+                   'caps': [int(x) for x in cp._segment_capacity.tolist()],
+                   'new_hashes': [int(hash(sg)) for sg in segments],
+                   'new_lens': [int(sg.num_points) for sg in segments]}
+            decisions.append(rec)
+            ret = orig_place(segments, segment_lengths)
+            w, a, i = ret
+            rec['ret'] = [[int(x) for x in w.tolist()], [bool(x) for x in a.tolist()], [int(x) for x in i.tolist()]]
+            return ret
+        cp._find_place_for_segments_in_memory = recording_place
         for op in ops:
             err = None
+            del decisions[:]
             try:
                 with warnings.catch_warnings():
                     warnings.simplefilter('ignore')
@@ -305,6 +324,7 @@ def run_history(total, ops, driver='awgs', len_dtype='u8'):
             snap = snapshot(cp, dev)
             snap['err'] = err
             snap['flushes'], snap['defs'] = dev.flushes, dev.defs
+            snap['decisions'] = [dict(d) for d in decisions]
             out.append(snap)
     finally:
         T.TaborProgram, T.make_compatible, T.make_combined_wave = saved
